@@ -16,9 +16,12 @@
      buffering on and a frame longer than receiveMTU (the faithful model drops it, as the code does:
      Findings/F_C15.v, F_C15_buffered_large_write_refuted).
    - C15_route_stable_partial / C15_get_returns_open_partial: "the packet conn handed out for a ufrag
-     stays THE packet conn of that ufrag until Remove/last Close/MuxClose" holds only while no closed
-     packet conn still has its watcher goroutine pending; the faithful model refutes the unconditional
-     statement (Findings/F_C15.v, F_C15_stale_watcher_*_refuted) and so does the code.
+     stays THE packet conn of that ufrag until Remove/last Close/MuxClose" holds, for the pinned code
+     (cf_byid = false), only while no closed packet conn still has its watcher goroutine pending; the
+     faithful model refutes the unconditional statement (Findings/F_C15.v,
+     F_C15_stale_watcher_*_refuted) and so does the code.  For the repaired code (cf_byid = true:
+     removal by identity, getConn ignores closed conns; the harness probes which one the
+     implementation is) the premise is not needed: the same two theorems are then full.
    - C15_close_terminates_partial: termination is a variant argument over the model's goroutine set
      (no label increases the measure after Close, some timer/goroutine label decreases it while it
      is positive, at zero Close returns); it needs positive timeouts.  Real goroutine scheduling,
@@ -41,7 +44,7 @@ Theorem C15_routing_lookup : forall cf s cid m u b,
   In cid (cids s) -> c_phase (conn s cid) = PPending -> classify m = FOk u b -> c_addr_ok (conn s cid) = true ->
   let c := conn s cid in
   let s' := next cf s (OFirst cid m) in
-  match mp s u (c_is6 c) (c_lip c) with
+  match lookup cf s u (c_is6 c) (c_lip c) with
   | Some p => c_phase (conn s' cid) = PRouted p b /\ c_route (conn s' cid) = Some p /\
               c_msgs (conn s' cid) = [b] /\ c_got (conn s' cid) = [] /\ npc s' = npc s /\ pc s' = pc s /\ mp s' = mp s
   | None => cf_addr_ok cf = true ->
@@ -170,19 +173,20 @@ Theorem C15_closed_only_by : forall cf ops o p,
   | OHClose h => hnd s h = Some (p, false) /\ (p_refs (pc s p) - 1 <= 0)%Z
   | OExpire u f i => mp s u f i = Some p /\ p_timer (pc s p) = true
   | OMuxClose => mclosed s = false
-  | OWatcher q => q <> p /\ p_closed (pc s q) = true /\ p_watcher (pc s q) = true /\
+  | OWatcher q => cf_byid cf = false /\ q <> p /\ p_closed (pc s q) = true /\ p_watcher (pc s q) = true /\
                   p_ufrag (pc s q) = p_ufrag (pc s p) /\ p_ip (pc s q) = p_ip (pc s p)
   | _ => False
   end.
 Proof. exact closed_only_by_hist. Qed.
 Print Assumptions C15_closed_only_by.
 
-(* PARTIAL (what is missing: the premise about stale watchers cannot be discharged for the code as
-   it is): without a pending watcher of a closed packet conn under the same (ufrag, local IP), a
-   packet conn is closed only with a cause in the history *)
+(* PARTIAL for the pinned code (what is missing: the premise about stale watchers cannot be discharged
+   for cf_byid = false); FULL for the repaired code (left disjunct): a packet conn is closed only
+   with a cause in the history *)
 Theorem C15_route_stable_partial : forall cf ops o p,
   let s := run cf init ops in
-  (forall q, q <> p -> p_closed (pc s q) = true -> p_watcher (pc s q) = true ->
+  (cf_byid cf = true \/
+   forall q, q <> p -> p_closed (pc s q) = true -> p_watcher (pc s q) = true ->
              ~ (p_ufrag (pc s q) = p_ufrag (pc s p) /\ p_ip (pc s q) = p_ip (pc s p))) ->
   p_closed (pc s p) = false -> p_closed (pc (next cf s o) p) = true ->
   match o with
@@ -195,11 +199,11 @@ Theorem C15_route_stable_partial : forall cf ops o p,
 Proof. exact no_spurious_close_hist. Qed.
 Print Assumptions C15_route_stable_partial.
 
-(* PARTIAL (same premise): GetConnByUfrag hands out an OPEN packet conn registered under the key,
-   with its alive timer stopped *)
+(* PARTIAL for the pinned code, FULL for the repaired code (same disjunction): GetConnByUfrag hands
+   out an OPEN packet conn registered under the key, with its alive timer stopped *)
 Theorem C15_get_returns_open_partial : forall cf ops h u is6 ip,
   let s := run cf init ops in
-  no_pending_watcher s -> mclosed s = false -> cf_addr_ok cf = true ->
+  (cf_byid cf = true \/ no_pending_watcher s) -> mclosed s = false -> cf_addr_ok cf = true ->
   let s' := next cf s (OGet h u is6 ip) in
   exists p, hnd s' h = Some (p, false) /\ p_closed (pc s' p) = false /\ mp s' u is6 ip = Some p /\
             p_ufrag (pc s' p) = u /\ p_is6 (pc s' p) = is6 /\ p_ip (pc s' p) = ip /\ p_timer (pc s' p) = false.
@@ -236,10 +240,10 @@ Theorem C15_provisional_expiry : forall cf ops u is6 ip p,
      (forall k, c_att (conn s k) = Some p ->
                 c_srv_closed (conn s' k) = true /\ c_att (conn s' k) = None /\ c_reader (conn s' k) = None) /\
      (forall k, c_reader (conn s k) = Some p -> c_reader (conn s' k) = None)) /\
-  (mclosed s = false -> forall h ops2,
+  (mclosed s = false -> lookup cf s u is6 ip = Some p -> forall h ops2,
      let s1 := next cf s (OGet h u is6 ip) in
      let s2 := run cf s1 ops2 in
-     p_timer (pc s2 p) = false /\
+     hnd s1 h = Some (p, false) /\ p_timer (pc s2 p) = false /\
      (mp s2 u is6 ip = Some p -> next cf s2 (OExpire u is6 ip) = s2)).
 Proof. exact expiry_hist. Qed.
 Print Assumptions C15_provisional_expiry.
@@ -281,7 +285,7 @@ Print Assumptions C15_close_terminates_partial.
 
 (* ---------------- non-vacuity ---------------- *)
 
-Definition ex_cfg : cfg := mkCfg true true false true true.
+Definition ex_cfg : cfg := mkCfg true true false true true false.
 Definition ex_first (u : string) : first_msg := mkFirst 32 true (Some (u ++ ":peer")%string) "BIND"%string.
 Definition ex_bad : first_msg := mkFirst 600 true (Some "u1:peer"%string) "BIG"%string.
 
